@@ -219,7 +219,8 @@ def _body(ctx, case, d):
         else:
             f = w("g.dat", b"this is not gzip at all\n")
             flag = ["--gzin"]
-        res = mlr_run(ctx, case, ["-i", fmt, "--ojson"] + flag + chain + [f])
+        # 20000 records at --records-per-batch 1 under a dense schedule perturbation take a minute or more: that is the hook's slowdown, not a hang
+        res = mlr_run(ctx, case, ["-i", fmt, "--ojson"] + flag + chain + [f], timeout=300 if how == "trunc-gz-big" else 30)
         judge(ctx, case, res, "%s (%s input)" % (how, fmt))
     elif kind == "prepipe":
         f = w("in.dkvp", good("dkvp", n))
